@@ -69,7 +69,7 @@ Print Assumptions C01_ids_unique.
 (* End-to-end response integrity over the composition of the client and server models
    (coq/ChainResp*.v; monitor ChainRespSpec.c01c_ok, evaluated on every real chain trace by part
    compose); names are qualified. *)
-From TarpcV Require Client Server Chain ChainSpec ChainRespSpec ChainResp ChainResp2 ChainResp3.
+From TarpcV Require Client Server Chain ChainSpec ChainRespSpec ChainResp ChainResp2 ChainResp3 ChainResp4 ChainResp5.
 (* value provenance across hops, on the COMPOSITION (coq/Chain.v), for EVERY depth, EVERY op
    list and EVERY state reached (tainted or not, request ids wrapped or not - no hypothesis):
    whenever a head call resolves with Ok v, some handler of node 0 finished with v before; and
@@ -78,8 +78,7 @@ From TarpcV Require Client Server Chain ChainSpec ChainRespSpec ChainResp ChainR
    return: no client, link or server of the chain ever fabricates, alters or duplicates-into-
    existence a reply value.  (Monitor ChainRespSpec.c01c_val: flag rm_val of the fold rmon.)
    Of the request-identified refinements of the same monitor, rm_yield / rm_uniq / rm_start are
-   proved (C08.v section below), rm_once is proved for runs that end untainted
-   (C01_chain_once_untainted), and rm_body (the producing handler served a request with the
+   proved (C08.v section below), rm_once is proved in all states (C01_chain_once), and rm_body (the producing handler served a request with the
    caller's body; untainted runs) is pinned in ChainRespSpec.stmt_resp_body and CHECKED on every
    real trace (Checks/Chaincheck bit 1), not proved. *)
 Theorem C01_chain_value_provenance : forall (d : nat) (ops : list Chain.cop),
@@ -120,15 +119,27 @@ Proof. vm_compute. repeat split; reflexivity. Qed.
 
 Print Assumptions C01_chain_value_provenance.
 
-(* (ii) a head call resolves (KCall j (CDone _)) at most once and never after it was abandoned,
-   on every run of fewer than 2^64 - 1 ops that ends untainted (the taint flag only rises, so
-   such a run was untainted throughout).  The unrestricted ChainRespSpec.stmt_resp_once needs the
-   client's permit-waiter invariant in all states; it is checked on every real trace only. *)
-Theorem C01_chain_once_untainted : forall (d : nat) (ops : list Chain.cop),
+(* (ii) a head call resolves (KCall j (CDone _)) at most once and never after it was abandoned:
+   every depth, every op list, EVERY state (tainted or not; no hypothesis).  It rests on the
+   permit-waiter invariant of the client in all states (ClientWaiters.winv_step, for every
+   transport): a call that is over is never a waiter, so no permit release or queue close
+   revives it, and polling it returns nothing. *)
+Theorem C01_chain_once : forall (d : nat) (ops : list Chain.cop),
+  ChainRespSpec.c01c_once d ops (fst (Chain.run d ops)) = true.
+Proof. exact ChainResp4.chain_resp_once_all. Qed.
+Print Assumptions C01_chain_once.
+
+(* the monitor as a whole: five of the six flags are proved (value provenance, once, and the three
+   C08 flags below); with the sixth (rm_body, ChainRespSpec.stmt_resp_body: the producing handler
+   served the caller's own request; open, checked on every real trace) the whole c01c_ok
+   follows *)
+Theorem C01_chain_resp_but_body : forall (d : nat) (ops : list Chain.cop),
   ChainSpec.chain_no_wrap ops ->
-  match ChainRespSpec.rm_run d ChainRespSpec.rmon0 ops (fst (Chain.run d ops)) with
-  | Some x => Chain.mo_tainted (ChainRespSpec.rm_mon x) = false -> ChainRespSpec.rm_once x = true
-  | None => False
-  end.
-Proof. exact ChainResp3.chain_resp_once_untainted. Qed.
-Print Assumptions C01_chain_once_untainted.
+  ChainRespSpec.c01c_val d ops (fst (Chain.run d ops)) && ChainRespSpec.c01c_once d ops (fst (Chain.run d ops))
+  && ChainRespSpec.c01c_yield d ops (fst (Chain.run d ops)) && ChainRespSpec.c01c_uniq d ops (fst (Chain.run d ops))
+  && ChainRespSpec.c01c_start d ops (fst (Chain.run d ops)) = true.
+Proof. exact ChainResp5.chain_resp_but_body. Qed.
+Theorem C01_chain_resp_of_body : ChainRespSpec.stmt_resp_body -> ChainRespSpec.stmt_resp.
+Proof. exact ChainResp5.chain_resp_of_body. Qed.
+Print Assumptions C01_chain_resp_but_body.
+Print Assumptions C01_chain_resp_of_body.
